@@ -118,6 +118,14 @@ UNITS['U19b'] = dict(
     assumptions=['stand-ins: Scratchpad::get_nullable hands out (data, present); the operator input handle is a unit value'],
     not_covered=['filters longer than 10 rows'])
 
+UNITS['U29'] = dict(
+    kind='verus', tpl='contracts/U29_partition.vx', timeout_s=600,
+    title='multi-key merge kernels partition -> subpartition -> merge_partitioned / merge_deduplicate_partitioned: groups stay inside the inputs and are runs of one key; subpartition refines without crossing group boundaries; the merges consume every group row exactly once, in order, with the recorded ops describing where each output row comes from',
+    assumptions=['A-rows-u32: the two inputs together have at most u32::MAX rows (Premerge counts are u32; the code would overflow beyond)',
+                 'A-eq: T::obeys_eq_spec() and == is reflexive on T (true for the integer, string, OrderedFloat and Val keys the planner instantiates; a NaN-like key would make partition loop forever)',
+                 'R5: bound `T: VecData<T>` reduced to `Copy + PartialEq`; R4: cmp::max on u32 replaced by verified vx_max_u32'],
+    not_covered=['that group values come out in merge order and that merge_partitioned output is sorted within a group (needs consistency of == with the comparator and sortedness of the inputs inside groups)', 'the operator structs around the kernels (scratchpad plumbing)'])
+
 UNITS['U03'] = dict(
     kind='verus', tpl='contracts/U03_stringpack.vx',
     title='stringpack.rs: PackedStrings::push, StringPackerIterator::next, PackedBytesIterator::{has_more,next}, IndexedPackedStrings::{push,len} + round-trip lemma',
@@ -260,7 +268,7 @@ UNITS['U17k'] = dict(
 
 UNITS['U18k'] = dict(
     kind='kani', crate='kani/U18',
-    title='meta_store.rs WAL cursor primitives, Storage::recover per-segment classification (slice), InnerLocustDB::new replay contiguity (slice) (complete)',
+    title='meta_store.rs WAL cursor primitives, Storage::recover per-segment classification (slice), InnerLocustDB::new replay contiguity (slice), cursor field written by MetaStore::serialize / read by deserialize (slices) (complete)',
     harnesses=[dict(name='proofs::cursor_primitives', clause='add_wal_segment returns old next and increments; unflushed = cursor..next; register keeps next > id', fn='MetaStore cursor fns'),
                dict(name='proofs::recover_classification', unwind=3, clause='replayed iff id >= cursor; deleted iff id < cursor and not read-only; replayed ids registered', fn='Storage::recover[slice]'),
                dict(name='proofs::replay_contiguity', clause='after replaying id the expected next id is id + 1', fn='InnerLocustDB::new[slice]'),
@@ -323,10 +331,10 @@ UNITS['U04d'] = dict(
     not_covered=['column::decode control structure (section stack), string / compression arms, `UnhexpackStrings => todo!()`'])
 
 UNITS['U22k'] = dict(
-    kind='kani', crate='kani/U22', timeout_s=1500, mem_gb=16, jobs=2,
+    kind='kani', crate='kani/U22', timeout_s=900, mem_gb=12, jobs=2,
     title='BOUNDED (3 columns, two fixed name sets, every grouping into files): inner_locustdb::subpartition + lookup-map construction (slice) + PartitionMetadata::subpartition_key',
-    harnesses=[dict(name='proofs::%s' % n, bounded='3 one-byte columns named %s, size limit 1..=3 (all three groupings), unwind 6' % names, unwind=6, clause='every column lands in exactly one file; subpartition_key(name) is the key of that file; a name above all routes to None', fn='subpartition / subpartition_key')
-               for (n, names) in [('mixed_case_names_found', '{a, B, c}'), ('prefix_names_found', '{ab, a, abc}')]]
+    harnesses=[dict(name='proofs::%s' % n, bounded='3 one-byte columns named %s, size limit 1..=3 (all three groupings), unwind 6' % names, unwind=6, clause='every column lands in exactly one file; files hold ascending runs (byte order) of the names; each file is keyed by its last name', fn='subpartition')
+               for (n, names) in [('mixed_case_names_layout', '{a, B, c}'), ('prefix_names_layout', '{ab, a, abc}')]]
     + [dict(name='proofs::vx_canary', expect_fail=True)],
     assumptions=['R10: Column reduced to (name, size); Options reduced to max_partition_size_bytes', 'A-sha: sha2 replaced by a stand-in crate (key formatting of unsafe names only; not exercised by these name sets)'],
     not_covered=['sanitize_table_name', 'partition_filename formatting', 'names that are not file-system safe (digest keys)', 'lazy load / empty-handle protocol (concurrent)'])
@@ -392,7 +400,7 @@ PROPS = {
                 technique='contract-based deductive verification (Verus; Kani complete for the byte-conversion assumption) of extracted functions',
                 assumptions=[], not_covered=['capnp encode/decode of WAL segments, partition segments and the catalogue', 'FileBlobWriter']),
     'C12': dict(level='other', units=['U13k', 'U21k', 'U19', 'U27k'],
-                level_text='complete Kani proofs of the LIMIT/OFFSET row-window arithmetic (never more rows than LIMIT, no panic for any limit/offset/length); bounded Kani check that LIMIT/OFFSET literals give an error value instead of a panic',
+                level_text='complete Kani proofs of the LIMIT/OFFSET row-window arithmetic (never more rows than LIMIT, no panic for any limit/offset/length); bounded Kani check that LIMIT/OFFSET literals give an error value instead of a panic; Verus / Kani: the NULL column standing in for an unknown column has exactly as many rows as the filter keeps (BatchResult::validate would otherwise panic a worker)',
                 level_note='narrow: sqlparser, convert_to_native_expr, result assembly (BatchResult::validate) and channel delivery are not covered',
                 technique='contract-based deductive verification (Kani complete + bounded harnesses) of extracted slices',
                 explanation='U13k: loop-free harnesses over all (limit, offset, len) - complete. U21k: literals of at most 4 characters over 0-9 . e - (bounded). Everything else about query strings is outside the reach of contracts on this code base.',
@@ -408,7 +416,7 @@ PROPS = {
                 technique='bounded Kani harnesses (labelled bounded, not counted as discharged obligations) over statement / expression slices of the real sanitize_table_name',
                 assumptions=[], not_covered=['column -> sub-partition file routing', 'partition file names', 'names longer than 2 characters, non-ASCII names', 'lazy loading of sub-partitions']),
     'C13': dict(level='proof', units=['U02', 'U27k'],
-                level_text='Verus proofs: a column missing from a batch is padded with NULLs for that batch (extend_to_largest body), a column first seen late reads NULL for all earlier rows (ColumnBuffer::null + push_*), per-column append of every input representation',
+                level_text='Verus proofs: a column missing from a batch is padded with NULLs for that batch (extend_to_largest body), a column first seen late reads NULL for all earlier rows (ColumnBuffer::null + push_*), per-column append of every input representation; complete Kani proof that a column missing from a partition is given exactly the rows the WHERE clause keeps, for every filter kind',
                 level_note='catalogue tables, lazy column_names initialisation, SELECT * expansion and the HashMap iteration around the per-column code are not covered',
                 technique='contract-based deductive verification (Verus) of extracted functions and statement slices',
                 assumptions=[], not_covered=['catalogue (_meta_tables, _meta_columns_*)', 'compaction column list', 'SELECT * expansion']),
@@ -422,24 +430,24 @@ PROPS = {
                 level_note='A-bitbuffer, A-ind-scheme, A-capnp; bounded parts are reported under coverage.bounded and not counted as discharged obligations',
                 technique='contract-based deductive verification (Kani: complete induction step + bounded harnesses) of extracted slices and of the unmodified sub-crate',
                 assumptions=[], not_covered=['capnp transport', 'bitbuffer internals', 'server::encode_column dispatch']),
-    'C02': dict(level='proof', units=['U10', 'U09k', 'U09m', 'U13k', 'U20k', 'U28k'],
-                level_text='Verus proofs of the merge kernels that combine per-partition results (sorted, provenance, left-biased, nothing skipped), complete Kani proofs of cross-partition aggregate combination and limit arithmetic',
-                level_note='per-partition planning, executor streaming, disk read scheduling and thread count are glue and not covered: the check catches a broken merge/combine primitive, not a broken plan',
+    'C02': dict(level='proof', units=['U10', 'U09k', 'U09m', 'U13k', 'U20k', 'U28k', 'U29'],
+                level_text='Verus proofs of the merge kernels that combine per-partition results (sorted, provenance, left-biased, nothing skipped), complete Kani proofs of cross-partition aggregate combination and limit arithmetic; bounded Kani check (2-4 keys) of the plan that merges the grouping keys of two partial results',
+                level_note='per-partition planning, executor streaming, disk read scheduling and thread count are glue and not covered: the check catches a broken merge/combine primitive or a broken key-merge chain, not a broken executor',
                 technique='contract-based deductive verification (Verus + Kani complete harnesses) of extracted functions',
-                assumptions=[], not_covered=['executor stage partitioning / streaming', 'batch_merging::combine plan construction', 'disk read scheduler']),
-    'C04': dict(level='proof', units=['U09k', 'U09v', 'U09m', 'U10', 'U19', 'U20k', 'U01'],
+                assumptions=[], not_covered=['executor stage partitioning / streaming', 'batch_merging::combine: ORDER BY branch and single-key branch', 'disk read scheduler']),
+    'C04': dict(level='proof', units=['U09k', 'U09v', 'U09m', 'U10', 'U19', 'U20k', 'U01', 'U29'],
                 level_text='complete Kani proofs of accumulate/combine kernels; Verus proofs of dedup-merge / merge_drop / merge_keep kernels and bitmap primitives',
                 level_note='grouping-key construction, hash-map grouping and the final pass are not covered',
                 technique='contract-based deductive verification (Verus + Kani complete harnesses) of extracted functions',
                 assumptions=[], not_covered=['hashmap_grouping*', 'try_bitpacking (float log2)']),
-    'C05': dict(level='proof', units=['U10', 'U11', 'U12k', 'U13k', 'U26'],
-                level_text='Verus proof of merge (sorted, stable, limit), complete Kani proofs of integer/float comparators and LIMIT/OFFSET window arithmetic; string comparators bounded',
-                level_note='std sort_by/sort_unstable_by, the top-n driver and the planner choice between sort and top-n are not covered',
+    'C05': dict(level='proof', units=['U10', 'U11', 'U12k', 'U13k', 'U26', 'U29'],
+                level_text='Verus proof of merge (sorted, stable, limit) and of the sort kernels against assumed contracts of the std sorts (stable where stability is asked for, NULLs last / first when descending), complete Kani proofs of integer/float comparators and LIMIT/OFFSET window arithmetic; string comparators bounded',
+                level_note='the std sorts themselves are assumed (A-std-sort); the top-n driver and the planner choice between sort and top-n (and which sorts it requests as stable) are not covered',
                 technique='contract-based deductive verification (Verus + Kani) of extracted functions',
-                assumptions=[], not_covered=['SortBy*::execute (std sort)', 'TopN::execute/finalize']),
+                assumptions=[], not_covered=['bodies of slice::sort_by / sort_unstable_by', 'TopN::execute/finalize', 'NormalFormQuery::run sort requests']),
     'C03': dict(level='proof', units=['U01', 'U05k', 'U06k', 'U07k', 'U08v', 'U19', 'U25k'],
-                level_text='complete Kani proofs of comparison kernels and constant translation; Verus proof of null bitmap primitives',
-                level_note='compile_expr glue, LIKE/regex, string dictionary comparisons not covered yet',
+                level_text='complete Kani proofs of comparison kernels and constant translation; Verus proof of null bitmap primitives and filter kernels; Kani proof that the planner rewrite makes a binary operator NULL exactly where an operand is NULL; bounded Kani check of string comparisons on dictionary indices',
+                level_note='compile_expr glue other than the NULL rewrite, LIKE/regex, and dictionaries larger than 3 entries are not covered',
                 technique='contract-based deductive verification (Kani complete harnesses + Verus) of extracted / path-included real code',
                 assumptions=[], not_covered=[]),
     'C06': dict(level='proof', units=['U08k', 'U08v', 'U09k', 'U09v', 'U09m'],
